@@ -195,7 +195,7 @@ PROPS["C09"] = {
 PROPS["C01"] = {
     "level": "model_checking",
     "level_text": 'RT(shape): for every message shape of the catalogue the solver decides IN ONE QUERY, for all values of all numeric fields, raw data and trailing bytes, that parsing Message::as_bytes(m) followed by the tail yields m field for field (floats bit for bit) and exactly the tail as remainder - the property as stated, on the crate\'s own bytes. In addition P(shape): parsing the independent reference encoding ++ tail yields the message and the tail (with W(shape), writer == reference bytes, in C02 this gives the identity a second time by substitution, and covers the string layouts, for which the writer cannot be executed symbolically).',
-    "level_note": 'Shapes are enumerated, not symbolic: control bytes (HTYP, MSIN, NOAR, LEN, type info, length prefixes) and id/text contents are literal per harness (texts contain a two-byte UTF-8 character). Shapes: 4 payload kinds, both byte orders, with/without storage header, optional-field combinations, zero-argument verbose / network-trace payloads, every one of the 38 argument layouts plus length variants (round trip: all non-string layouts).',
+    "level_note": 'Shapes are enumerated, not symbolic: control bytes (HTYP, MSIN, NOAR, LEN, type info, length prefixes) and id/text contents are literal per harness (texts contain a two-byte UTF-8 character). Shapes: 4 payload kinds, both byte orders, with/without storage header, optional-field combinations, zero-argument verbose / network-trace payloads, every one of the 38 argument layouts plus length variants (round trip: all layouts except string and raw data).',
     "functions": ['Message::as_bytes', 'StandardHeader::as_bytes', 'ExtendedHeader::as_bytes', 'StorageHeader::as_bytes', 'PayloadContent::as_bytes', 'Argument::as_bytes::<BE|LE>', 'parse::dlt_message', 'parse::dlt_message_intern', 'parse::dlt_standard_header', 'parse::dlt_extended_header', 'parse::dlt_storage_header', 'parse::dlt_payload', 'parse::dlt_argument::<BE|LE>', 'parse::dlt_zero_terminated_string_intern'],
     "bounds": 'messages <= 96 bytes, <= 2 arguments, names/units/strings/raw 0..3 bytes, tail 1..3 symbolic bytes',
     "outside": 'longer strings, > 2 arguments, total length near 65535, symbolic id/text contents (C19), symbolic control bytes (C14, c02d)',
@@ -204,7 +204,6 @@ PROPS["C01"] = {
     "harnesses": [H("c01::" + n, "quick", 900) for n in ["c01_p_nonverbose_min", "c01_p_nonverbose_ext_storage_be", "c01_p_control_le",
         "c01_p_verbose_bool_le", "c01_p_verbose_u32_named_be_storage", "c01_p_verbose_string_le", "c01_p_nettrace_le", "c01_p_nettrace_be", "c01_p_nettrace_empty", "c01_p_verbose_empty"]]
                  + [H("c01::" + n, "quick", 900, what="serialise-then-parse identity in one query") for n in ["c01_rt_nonverbose_min", "c01_rt_control_le", "c01_rt_verbose_bool_le", "c01_rt_nettrace_be"]]
-                 + [H("c01::c01_rt_verbose_u32_named_be_storage", "thorough", 3600)]
                  + [H(e["name"], e["tier"], 900, what="serialise-then-parse identity in one query, one argument layout") for e in _json.load(open(_os.path.join(_os.path.dirname(_os.path.abspath(__file__)), "catalogue.json")))["rt_arg"]]
                  + [H("c01::c01_p_verbose_two_args_u8_bool", "thorough", 3600, mem_gb=40), H("c01::c01_p_nettrace_two_slices", "thorough", 3600, mem_gb=40)]
                  + [H("c14::c14_msin_via_extended_header_parse", "quick", 300, what="every MSIN code (incl. reserved message types) is accepted and decoded by the extended-header parser"),
@@ -233,14 +232,14 @@ _wq = ["c02w_storage_header_id4", "c02w_storage_header_id1", "c02w_standard_head
 _wt = ["c02w_storage_header_id0", "c02w_storage_header_id3", "c02w_standard_header_c1", "c02w_standard_header_c3", "c02w_standard_header_c4",
        "c02w_standard_header_c6", "c02w_extended_header_id0", "c02w_extended_header_id3"]
 _w = _wq + ["c02w_payload_nonverbose_control", "c02w_payload_nettrace_le", "c02w_payload_nettrace_be"]
-_wmsg = ["c02w_msg_nonverbose_min", "c02w_msg_nonverbose_ext_storage_be", "c02w_msg_control_le", "c02w_msg_nettrace_be", "c02w_msg_nettrace_storage_le", "c02w_msg_nettrace_empty", "c02w_msg_verbose_f64_all_le", "c02w_msg_verbose_raw_be", "c02w_msg_verbose_sfix64_v_storage",
+_wmsg = ["c02w_msg_nonverbose_min", "c02w_msg_nonverbose_ext_storage_be", "c02w_msg_control_le", "c02w_msg_nettrace_be", "c02w_msg_nettrace_storage_le", "c02w_msg_nettrace_empty", "c02w_msg_verbose_f64_all_le", "c02w_msg_verbose_sfix64_v_storage",
          "c02w_msg_verbose_bool_le", "c02w_msg_verbose_u32_named_be_storage", "c02w_msg_verbose_empty"]
 _wmsg_q = ["c02w_msg_nonverbose_ext_storage_be", "c02w_msg_control_le", "c02w_msg_nettrace_be", "c02w_msg_nettrace_storage_le", "c02w_msg_verbose_bool_le", "c02w_msg_verbose_sfix64_v_storage", "c02w_msg_verbose_empty"]
 _d = []
 _dt = ["c02d_standard_header_full_length", "c02d_extended_header_full_length", "c02d_standard_header_all_bytes", "c02d_extended_header_all_bytes", "c02d_storage_header_fields"]
 PROPS["C02"] = {
     "level": "model_checking",
-    "level_text": "Encoding: Message::as_bytes of whole messages (12 message shapes + every non-string argument layout as the single argument of a message) and every writer unit (storage / standard / extended header, each argument layout in both byte orders, payload kinds) are compared byte for byte with an independently written reference encoder for all field values. Decoding: header parsers on fully symbolic bytes (all 256 HTYP, all 256 MSIN, arbitrary id bytes, symbolic available length) against the reference decoder; message / filtered / incomplete / reject verdict and consumed length per shape and declared-length class (C04's harnesses carry the reference verdict); all 2^32 type-info words in C14.",
+    "level_text": "Encoding: Message::as_bytes of whole messages (12 message shapes + every numeric and bool argument layout as the single argument of a message) and every writer unit (storage / standard / extended header, each argument layout in both byte orders, payload kinds) are compared byte for byte with an independently written reference encoder for all field values. Decoding: header parsers on fully symbolic bytes (all 256 HTYP, all 256 MSIN, arbitrary id bytes, symbolic available length) against the reference decoder; message / filtered / incomplete / reject verdict and consumed length per shape and declared-length class (C04's harnesses carry the reference verdict); all 2^32 type-info words in C14.",
     "level_note": "Agreement on arbitrary byte strings is decided per unit and per shape, not for whole messages with symbolic control (that does not finish). The crate's canonical bool type info has TYLE=0 (TYLE=1..15 accepted on decode).",
     "functions": ['StorageHeader::as_bytes', 'StandardHeader::as_bytes', 'ExtendedHeader::as_bytes', 'Argument::as_bytes::<BE|LE>', 'Argument::len', 'PayloadContent::as_bytes', 'TypeInfo::as_bytes', 'parse::dlt_standard_header', 'parse::dlt_extended_header', 'parse::dlt_storage_header'],
     "bounds": 'header units: 16 / 12 / 18 symbolic bytes; argument layouts of the catalogue (80 shapes); payloads <= 3 slices / 2 arguments',
@@ -307,8 +306,7 @@ PROPS["C07"] = {
                   "c07_read_message_equals_slice_parse"]]
                  + [H("c07::c07_new_reserves_largest_declarable_message", "quick", 300, fallback_playback=[[[0]], [[1]]],
                       what="DltMessageReader::new reserves storage header + 65535 bytes (both storage modes)")]
-                 + [H("c07::c07_any_stream_storage_22", "thorough", 3600, mem_gb=30, what="storage-header mode: literal storage header + 6 arbitrary bytes, any length, any schedule"),
-                    H("c07::c07_truncated_tail_any_schedule", "thorough", 3600, mem_gb=30), H("c07::c07_two_messages_any_schedule", "thorough", 5400, mem_gb=40), H("c07::c07_default_capacity_any_declared_length", "thorough", 5400, mem_gb=40)],
+                 + [H("c07::c07_truncated_tail_any_schedule", "thorough", 3600, mem_gb=30), H("c07::c07_two_messages_any_schedule", "thorough", 5400, mem_gb=40), H("c07::c07_default_capacity_any_declared_length", "thorough", 5400, mem_gb=40)],
 }
 
 PROPS["C15"] = {
@@ -323,7 +321,6 @@ PROPS["C15"] = {
     "harnesses": [H("c15::" + n, "quick", 900) for n in ["c15_new_nonverbose_noext", "c15_new_nonverbose_ext_be", "c15_new_control",
                   "c15_new_nettrace_le", "c15_new_nettrace_be", "c15_new_verbose_empty", "c15_new_nettrace_empty", "c15_valid_rejects_mismatched_values"]]
                  + [H("c15::" + n, "quick", 900) for n in ["c15_new_verbose_u16", "c15_new_verbose_string"]]
-                 + [H("c15::c15_new_verbose_two_args", "thorough", 3600, mem_gb=30)]
                  + [H("c15::" + n, "quick", 900, what="Message::new -> as_bytes -> dlt_message returns the configured message (one query)") for n in
                     ["c15_back_nonverbose_noext", "c15_back_control", "c15_back_nettrace_be", "c15_back_nettrace_empty", "c15_back_verbose_empty", "c15_back_verbose_bool"]]
                  + [H(e["name"], e["tier"], 900, what="Argument::len == serialised length (and bytes == reference)") for e in _cat["w_arg"]]
